@@ -71,6 +71,7 @@ type Obligation struct {
 	Secs   float64
 	Model  map[string]string
 	Output string
+	File   string // SMT-LIB file of the query (kept while the obligation is not discharged)
 }
 
 func (vc *VC) oblige(name, kind, reach, goal, pos string) *Obligation {
